@@ -204,8 +204,11 @@ def run_case(ctx, kind, stack, methods, prefixes, status_map, repeats):
             for key, val in e2.items():
                 if key in ent and not typed_eq(ent[key], val):
                     diff = _first_diff(ent[key], val)
-                    dup = len({m['name'] for m in methods}) < len(methods) and not all(
-                        (m.get('annotate') or {}).get('prefix') for m in methods if [x['name'] for x in methods].count(m['name']) > 1)
+                    dup = False
+                    for nm in {m['name'] for m in methods}:
+                        group = [(m.get('annotate') or {}).get('prefix') for m in methods if m['name'] == nm]
+                        if len(group) > 1 and (len(set(group)) < len(group) or None in group):
+                            dup = True      # same exposed name on two endpoints without pairwise distinct component prefixes
                     ctx.violation('method-entry-depends-on-the-other-methods:' + _diff_class(diff)
                                   + (':same-exposed-name-on-two-endpoints-without-prefixes' if dup else ''), fam, cls, variant=label,
                                   entry=key, difference=diff, **wit)
